@@ -391,7 +391,7 @@ def select(ctx, fams):
     num = fams["num"]
     if not ctx.quick:
         return num
-    cap = {"d2": 2200, "d2b": 500, "n3": 250}
+    cap = {"d2": 1500, "d2b": 400, "n3": 200}
     byg = {}
     for c in num:
         byg.setdefault(c["g"], []).append(c)
@@ -464,16 +464,26 @@ def corruption_check(ctx, obs):
 
 
 def run(ctx):
+    import time
+
+    t0 = time.time()
     decl, fams = enumerate_cases(ctx)
     num = select(ctx, fams)
+    ctx.notes["t_enum_s"] = round(time.time() - t0, 1)
     # ---- T1: the reference inference passes its own judge --------------------------------
+    t0 = time.time()
+    shallow = [c for c in num if c["g"] in ("leaf", "d1")]
+    deep = [c for c in num if c["g"] not in ("leaf", "d1")]
+    t1c = shallow + deep[:: max(1, len(deep) // (600 if ctx.quick else 10000))]
     t1 = [
         {"fam": "num", "id": i, "i": 0, "j": 0, "g": c["g"], "e": c["e"], "ok": True, "exc": "", "t": TBAD, "t2": TBAD, "ts": []}
-        for i, c in enumerate(num if ctx.quick else num[:: max(1, len(num) // 12000)])
+        for i, c in enumerate(t1c)
     ]
     fails, infos, _ = run_judge(ctx, "t1-self", t1, mode="self")
     if fails or infos:
         raise MachineryError("T1: the reference TypeRef does not pass its own judge: %r %r" % (fails[:3], infos))
+    ctx.notes["t_t1_s"] = round(time.time() - t0, 1)
+    t0 = time.time()
     # ---- T2: replay on the real library ---------------------------------------------------
     obs = []
     for fam, cases in (("num", num), ("exact", fams["exact"]), ("eq", fams["eq"]), ("big", fams["big"])):
@@ -483,11 +493,14 @@ def run(ctx):
     ctx.cov["evaluations"] += len(obs)
     renorm = sum(1 for o, c in zip(obs, list(num) + fams["exact"] + fams["eq"] + fams["big"]) if o["ok"] and o["e"] != c["e"])
     ctx.notes["cases_renormalised_by_construction"] = renorm
+    ctx.notes["t_replay_s"] = round(time.time() - t0, 1)
+    t0 = time.time()
     # ---- T3: judge ------------------------------------------------------------------------
     fails, infos, unspec = run_judge(ctx, "impl", obs)
     ctx.cov["traces_validated_against_impl"] += len(obs)
     ctx.cov["unspecified"] += unspec
     report(ctx, fails, byid)
+    ctx.notes["t_judge_s"] = round(time.time() - t0, 1)
     corruption_check(ctx, obs)
     nontrivial = sum(1 for o in obs if o["fam"] in ("num", "big") and o["e"]["args"]) + sum(1 for o in obs if o["fam"] == "eq")
     ctx.cov["distinct_nontrivial"] = nontrivial
